@@ -695,6 +695,16 @@ def vec_contains(ctx, args, ci, dt):
 
 def vec_index(ctx, args, ci, dt):
     v = deref(args[0])
+    if isinstance(args[1], Struct) and args[1].name in ('RangeFrom', 'Range', 'RangeTo'):
+        el = ctx.elems_of(v)
+        r = args[1]
+        lo = ctx.concretize_int(r.fields[0].v, 'index') if r.name != 'RangeTo' else 0
+        hi = len(el) if r.name == 'RangeFrom' else ctx.concretize_int(r.fields[-1].v, 'index')
+        if lo > hi:
+            raise panic('slice index starts at %d but ends at %d' % (lo, hi))
+        if hi > len(el):
+            raise panic('range end index %d out of range for slice of length %d' % (hi, len(el)))
+        return Ref(Cell(SliceV(el[lo:hi])))
     i = ctx.concretize_int(args[1], 'index')
     el = ctx.elems_of(v)
     if i >= len(el):
